@@ -78,12 +78,12 @@ impl Encoder for TTYEncoder {
             CursorMove { row, col } => {
                 match col.cmp(&0) {
                     Ordering::Greater => write!(out, "\x1b[{}C", col)?,
-                    Ordering::Less => write!(out, "\x1b[{}D", -col)?,
+                    Ordering::Less => write!(out, "\x1b[{}D", col.unsigned_abs())?,
                     _ => {}
                 }
                 match row.cmp(&0) {
                     Ordering::Greater => write!(out, "\x1b[{}B", row)?,
-                    Ordering::Less => write!(out, "\x1b[{}A", -row)?,
+                    Ordering::Less => write!(out, "\x1b[{}A", row.unsigned_abs())?,
                     _ => {}
                 }
             }
